@@ -550,7 +550,7 @@ static int push_args(Node *node) {
 
   // If the return type is a large struct/union, the caller passes
   // a pointer to a buffer as if it were the first argument.
-  if (node->ret_buffer && node->ty->size > 16)
+  if (node->ret_buffer && ret_in_memory(node->ty))
     gp++;
 
   // Load as many arguments to the registers as possible.
@@ -560,7 +560,7 @@ static int push_args(Node *node) {
     switch (ty->kind) {
     case TY_STRUCT:
     case TY_UNION:
-      if (ty->size > 16) {
+      if (ty->size > 16 || has_ldouble(ty)) {
         arg->pass_by_stack = true;
       } else {
         bool fp1 = has_flonum1(ty);
@@ -612,7 +612,7 @@ static int push_args(Node *node) {
 
   // If the return type is a large struct/union, the caller passes
   // a pointer to a buffer as if it were the first argument.
-  if (node->ret_buffer && node->ty->size > 16) {
+  if (node->ret_buffer && ret_in_memory(node->ty)) {
     println("  lea %d(%%rbp), %%rax", node->ret_buffer->offset);
     push();
   }
@@ -623,6 +623,12 @@ static int push_args(Node *node) {
 static void copy_ret_buffer(Obj *var) {
   Type *ty = var->ty;
   int gp = 0, fp = 0;
+
+  // struct { long double } is returned in %st0
+  if (only_ldouble(ty)) {
+    println("  fstpt %d(%%rbp)", var->offset);
+    return;
+  }
 
   if (has_flonum1(ty)) {
     assert(ty->size == 4 || 8 <= ty->size);
@@ -660,6 +666,12 @@ static void copy_ret_buffer(Obj *var) {
 static void copy_struct_reg(void) {
   Type *ty = current_fn->ty->return_ty;
   int gp = 0, fp = 0;
+
+  // struct { long double } is returned in %st0
+  if (only_ldouble(ty)) {
+    println("  fldt (%%rax)");
+    return;
+  }
 
   println("  mov %%rax, %%rdi");
 
@@ -961,7 +973,7 @@ static void gen_expr(Node *node) {
 
     // If the return type is a large struct/union, the caller passes
     // a pointer to a buffer as if it were the first argument.
-    if (node->ret_buffer && node->ty->size > 16)
+    if (node->ret_buffer && ret_in_memory(node->ty))
       pop(argreg64[gp++]);
 
     for (Node *arg = node->args; arg; arg = arg->next) {
@@ -970,7 +982,7 @@ static void gen_expr(Node *node) {
       switch (ty->kind) {
       case TY_STRUCT:
       case TY_UNION:
-        if (ty->size > 16)
+        if (ty->size > 16 || has_ldouble(ty))
           continue;
 
         bool fp1 = has_flonum1(ty);
@@ -1035,7 +1047,7 @@ static void gen_expr(Node *node) {
 
     // If the return type is a small struct, a value is returned
     // using up to two registers.
-    if (node->ret_buffer && node->ty->size <= 16) {
+    if (node->ret_buffer && !ret_in_memory(node->ty)) {
       copy_ret_buffer(node->ret_buffer);
       println("  lea %d(%%rbp), %%rax", node->ret_buffer->offset);
     }
@@ -1386,7 +1398,7 @@ static void gen_stmt(Node *node) {
       switch (ty->kind) {
       case TY_STRUCT:
       case TY_UNION:
-        if (ty->size <= 16)
+        if (!ret_in_memory(ty))
           copy_struct_reg();
         else
           copy_struct_mem();
@@ -1429,7 +1441,7 @@ static void assign_lvar_offsets(Obj *prog) {
       switch (ty->kind) {
       case TY_STRUCT:
       case TY_UNION:
-        if (ty->size <= 16) {
+        if (ty->size <= 16 && !has_ldouble(ty)) {
           bool fp1 = has_flonum(ty, 0, 8, 0);
           bool fp2 = has_flonum(ty, 8, 16, 0);
           int nfp = fp1 + (ty->size > 8 && fp2);
